@@ -7,7 +7,7 @@ A case is a strictly convex QP with a *planted* optimum, built as a real OpenMDA
               bounds on x
 
 `phi_i` is the identity (affine row, may be declared `linear=True`) or the increasing cubic
-`t + t^3/8` (genuinely nonlinear for the optimizer, but its level sets are hyperplanes, so the
+`t + t^3/64` (genuinely nonlinear for the optimizer, but its level sets are hyperplanes, so the
 feasible set is a polyhedron and the exact optimum is known).  The rows live in 1-3 array outputs
 of one harness component with analytic partials; constraints select elements with `indices`
 (+ `alias`), carry per-element bound patterns (scalar / array, +-INF_BOUND for "not set",
@@ -54,11 +54,11 @@ DY = [F(k, 4) for k in range(-12, 13)]
 
 
 def phi(kind, t):
-    return t if kind == 'lin' else t + t * t * t / 8
+    return t if kind == 'lin' else t + t * t * t / 64
 
 
 def dphi(kind, t):
-    return F(1) if kind == 'lin' else 1 + 3 * t * t / 8
+    return F(1) if kind == 'lin' else 1 + 3 * t * t / 64
 
 
 def bcast(v, n, default=None):
@@ -327,7 +327,7 @@ def make_comp(case):
             outputs['f'] = 0.5 * x @ self.Q @ x + self.c @ x
             for name, A in self.A.items():
                 t = A @ x + self.d[name]
-                outputs[name] = np.where(self.cub[name], t + t ** 3 / 8.0, t)
+                outputs[name] = np.where(self.cub[name], t + t ** 3 / 64.0, t)
 
         def compute_partials(self, inputs, partials):
             x = self._x(inputs)
@@ -338,7 +338,7 @@ def make_comp(case):
                 partials['f', dv['name']] = gf[sl].reshape(1, -1)
                 for name, A in self.A.items():
                     t = A @ x + self.d[name]
-                    dp = np.where(self.cub[name], 1.0 + 3.0 * t ** 2 / 8.0, 1.0)
+                    dp = np.where(self.cub[name], 1.0 + 3.0 * t ** 2 / 64.0, 1.0)
                     partials[name, dv['name']] = dp[:, None] * A[:, sl]
                 i += dv['size']
 
@@ -383,6 +383,7 @@ class Capture:
         self.kw = None
         self.res = None
         self.x0 = None
+        self.fixed = {}
         self.ids = {}
         self.xs = []
         self.log = []        # (kind, record index or None, design id, value, last obj id, last grad id)
@@ -391,6 +392,16 @@ class Capture:
 
     def xid(self, x):
         x = np.array(x, dtype=float)
+        if self.x0 is not None and x.size != self.x0.size and self.fixed and \
+                x.size == self.x0.size - len(self.fixed):
+            # scipy's COBYLA hands the constraint functions the design without the variables
+            # that are fixed by equal bounds: put them back
+            full = np.empty(self.x0.size)
+            free = [k for k in range(self.x0.size) if k not in self.fixed]
+            full[free] = x
+            for k, v in self.fixed.items():
+                full[k] = v
+            x = full
         k = x.tobytes()
         if k not in self.ids:
             self.ids[k] = len(self.xs)
@@ -413,10 +424,17 @@ class Capture:
         def wrapped(fun, x0, **kw):
             self.kw = dict(kw)
             self.x0 = np.array(x0, dtype=float)
+            b = kw.get('bounds')
+            self.fixed = {}
+            if isinstance(b, (list, tuple)):
+                self.fixed = {k: float(l) for k, (l, h) in enumerate(b)
+                              if l is not None and h is not None and float(l) == float(h)}
             self.last_obj = self.xid(self.x0)     # the driver has just run the model there
             self.start = self.last_obj
             if self.dry:
-                self.res = OptimizeResult(x=self.x0.copy(), success=False, message='dry run')
+                # no optimization; 'shift' pretends the optimizer returns a design it never evaluated
+                x = self.x0 + (0.25 if self.dry == 'shift' else 0.0)
+                self.res = OptimizeResult(x=x, success=False, message='dry run')
                 return self.res
 
             def f(x, *a):
@@ -565,6 +583,12 @@ def exact_driver_view(case, scal, xd):
     fval = (uf * ex.f(x) + af[0]) * sf[0]
     gradf = [sf[0] * uf * (sum(ex.Q[k][j] * x[j] for j in range(n)) + ex.c[k]) /
              (maps[k][2] * maps[k][0]) for k in range(n)]
+    # magnitudes of the terms that are added up (floating-point comparisons are relative to these)
+    fmag = abs(sf[0]) * (abs(uf) * (sum(abs(x[i] * ex.Q[i][j] * x[j]) for i in range(n)
+                                        for j in range(n)) / 2 +
+                                    sum(abs(a * b) for a, b in zip(ex.c, x))) + abs(af[0]))
+    gmag = [abs(sf[0] * uf / (maps[k][2] * maps[k][0])) *
+            (sum(abs(ex.Q[k][j] * x[j]) for j in range(n)) + abs(ex.c[k])) for k in range(n)]
     cons = []
     for con, sc in zip(case['cons'], scal['cons']):
         o = ex.outs[con['out']]
@@ -572,17 +596,19 @@ def exact_driver_view(case, scal, xd):
         m = len(o['rows'])
         idx = list(range(m)) if con['indices'] is None else [i % m for i in con['indices']]
         ad, sl = adder_scaler(sc, len(idx))
-        g, rows, ax = [], [], []
+        g, rows, ax, mag = [], [], [], []
         for j, i in enumerate(idx):
             t = sum(F(a) * xi for a, xi in zip(o['rows'][i], x)) + unrat(o['d'][i])
             k = o['phi'][i]
             g.append((u * phi(k, t) + ad[j]) * sl[j])
+            tm = sum(abs(F(a) * xi) for a, xi in zip(o['rows'][i], x)) + abs(unrat(o['d'][i]))
+            mag.append(abs(sl[j]) * (abs(u) * phi(k, tm) + abs(ad[j])))
             row = [sl[j] * u * dphi(k, t) * F(o['rows'][i][q]) / (maps[q][2] * maps[q][0])
                    for q in range(n)]
             rows.append(row)
             ax.append(sum(r * v for r, v in zip(row, xd)))
-        cons.append({'g': g, 'rows': rows, 'ax': ax, 'adder': ad, 'scaler': sl})
-    return {'f': fval, 'gradf': gradf, 'cons': cons}
+        cons.append({'g': g, 'rows': rows, 'ax': ax, 'adder': ad, 'scaler': sl, 'mag': mag})
+    return {'f': fval, 'gradf': gradf, 'cons': cons, 'fmag': fmag, 'gmag': gmag}
 
 
 def flat_records(p, cap, xds, with_jac):
@@ -781,9 +807,19 @@ def run_one(case, scal, dry=False):
             res['trace'] = [[k, i] for (k, _, i, _, _, _) in cap.log[:TRACE_CAP]]
             res['trace_start'] = cap.start
             res['trace_truncated'] = len(cap.log) > TRACE_CAP
+            # objective-first discipline over the *whole* run (simple bookkeeping, no model):
+            # values / objective gradients asked where the model sits, constraint Jacobians where
+            # the gradient cache was filled
+            res['disciplined'] = all(
+                (i == lo) if k in ('c', 'g') else (i == (lg if lg is not None else lo))
+                for (k, _, i, _, lo, lg) in cap.log if k != 'o')
             lastobj = [i for (k, _, i, _, _, _) in cap.log if k == 'o']
             res['last_obj_id'] = lastobj[-1] if lastobj else cap.start
-            res['last_obj_x'] = rats(cap.xs[res['last_obj_id']].tolist())
+            res['result_id'] = cap.xid(xd)
+            # which of these two designs is the model at (driver units, own scaling formula)?
+            xmd = np.array([float(v) for v in scale_x(case, scal, [unrat(v) for v in res['x_model']])])
+            res['model_at'] = [i for i in sorted({res['last_obj_id'], res['result_id']})
+                               if np.allclose(cap.xs[i], xmd, rtol=1e-9, atol=1e-9)]
             try:
                 res['samples'] = replay_samples(p, cap)
                 # what scipy was given, at result.x and at the probe designs
@@ -1090,53 +1126,121 @@ def _mini(opt, lower, upper, linear=False, rows=None, d=None, con_scaling=None, 
             'scalings': [{'dvs': [{}], 'cons': [con_scaling or {}], 'obj': {}}], 'cert': None}
 
 
+CURRENT = {'rebind': True, 'lastOnly': True, 'negNew': True, 'linRow0': True, 'noSwap': True,
+           'noSync': True, 'noFinalSync': True}
+
+
 def detect_variant():
-    """Probe the real driver (dry run: the constraint objects are built, scipy is not run)."""
-    v = {}
-    # old-style loop: element 0 upper-only, element 1 two-sided
-    r = run_one(_mini('SLSQP', [None, rat(0)], [rat(5), rat(1)]), _mini('SLSQP', None, None)['scalings'][0],
-                dry=True)
-    n = len(r.get('records', []))
-    if n not in (2, 3):
-        raise TieBrokenError('old-style dicts for a 2-element constraint: %s (%s)' % (n, r.get('error')))
-    v['rebind'] = (n == 2)
-    # new-style nonlinear, two elements
-    c = _mini('trust-constr', None, [rat(5), rat(1)], phis=['cub', 'cub'])
-    r = run_one(c, c['scalings'][0], dry=True)
-    n = len([q for q in r.get('records', []) if q['t'] == 'nl'])
-    if n not in (1, 2):
-        raise TieBrokenError('NonlinearConstraints for a 2-element constraint: %s (%s)'
-                             % (n, r.get('error') or r.get('records_error')))
-    v['lastOnly'] = (n == 1)
-    # Jacobian sign of an upper-only new-style constraint: d g0 / d x0 = 1 + 3 t^2/8 > 0
-    q = [z for z in r['records'] if z['t'] == 'nl'][-1]
-    col = 1 if v['lastOnly'] else [k for k in (0, 1) if unrat(q['j'][0][k]) != 0][0]
-    v['negNew'] = unrat(q['j'][0][col]) < 0
-    # new-style linear, one element, constant term 5, upper bound 1
-    c = _mini('trust-constr', None, rat(1), linear=True, rows=[[1, 1]], d=[F(5)])
-    r = run_one(c, c['scalings'][0], dry=True)
-    recs = [z for z in r.get('records', []) if z['t'] in ('lin', 'nl')]
-    if len(recs) != 1:
-        raise TieBrokenError('linear constraint under trust-constr: %s' % (r.get('error') or
-                                                                           r.get('records_error')))
-    slack0 = unrat(recs[0]['ub']) - unrat(recs[0]['v'][0])      # at x0: A x0 = 3/4, g = 23/4
-    if slack0 == F(1) - F(3, 4):
-        v['linRow0'] = True
-    elif slack0 == F(1) - F(23, 4):
-        v['linRow0'] = False
+    """Probe the real driver (dry run: the constraint objects are built, scipy is not run).
+    Returns (variant, problems); a mechanism that cannot be classified keeps the anchored value."""
+    v = dict(CURRENT)
+    problems = []
+
+    def probe(fn):
+        try:
+            fn()
+        except TieBrokenError as e:
+            problems.append(str(e))
+        except Exception as e:          # the probe itself crashed inside the driver
+            problems.append('%s: %s: %s' % (fn.__name__, type(e).__name__, str(e)[:200]))
+
+    def old_loop():
+        # old-style loop: element 0 upper-only, element 1 two-sided
+        c = _mini('SLSQP', [None, rat(0)], [rat(5), rat(1)])
+        r = run_one(c, c['scalings'][0], dry=True)
+        n = len(r.get('records', []))
+        if n not in (2, 3):
+            raise TieBrokenError('old-style dicts for a 2-element constraint: %s (%s)'
+                                 % (n, r.get('error') or r.get('records_error')))
+        v['rebind'] = (n == 2)
+
+    def new_nonlinear():
+        c = _mini('trust-constr', None, [rat(5), rat(1)], phis=['cub', 'cub'])
+        r = run_one(c, c['scalings'][0], dry=True)
+        n = len([q for q in r.get('records', []) if q['t'] == 'nl'])
+        if n not in (1, 2):
+            raise TieBrokenError('NonlinearConstraints for a 2-element constraint: %s (%s)'
+                                 % (n, r.get('error') or r.get('records_error')))
+        v['lastOnly'] = (n == 1)
+        # Jacobian sign of an upper-only new-style constraint: d g_k / d x_k = 1 + 3 t^2/64 > 0
+        q = [z for z in r['records'] if z['t'] == 'nl'][-1]
+        d = unrat(q['j'][0][1])
+        if d == 0:
+            raise TieBrokenError('Jacobian of the last NonlinearConstraint has no x[1] entry')
+        v['negNew'] = d < 0
+
+    def new_linear():
+        # new-style linear, one element, constant term 5, upper bound 1
+        c = _mini('trust-constr', None, rat(1), linear=True, rows=[[1, 1]], d=[F(5)])
+        r = run_one(c, c['scalings'][0], dry=True)
+        recs = [z for z in r.get('records', []) if z['t'] in ('lin', 'nl')]
+        if len(recs) != 1:
+            raise TieBrokenError('linear constraint under trust-constr: %s' % (
+                r.get('error') or r.get('records_error') or len(recs)))
+        slack0 = unrat(recs[0]['ub']) - unrat(recs[0]['v'][0])      # at x0: A x0 = 3/4, g = 23/4
+        if slack0 == F(1) - F(3, 4):
+            v['linRow0'] = True
+        elif slack0 == F(1) - F(23, 4):
+            v['linRow0'] = False
+        else:
+            raise TieBrokenError('linear constraint under trust-constr: upper slack %s at x0' % slack0)
+
+    def negative_scaler():
+        # lower = 0 only, scaler -1; value of the dict at g = 1/2
+        c = _mini('SLSQP', rat(0), None, rows=[[1, 0]], con_scaling={'scaler': rat(-1)})
+        r = run_one(c, c['scalings'][0], dry=True)
+        recs = r.get('records', [])
+        val = unrat(recs[0]['v'][0]) if len(recs) == 1 else None
+        if val == F(-1, 2):
+            v['noSwap'] = True
+        elif val == F(1, 2):
+            v['noSwap'] = False
+        else:
+            raise TieBrokenError('dict value under a negative scaler: %s (%s)' % (
+                val, r.get('error') or r.get('records_error')))
+
+    def sync():
+        v['noSync'], v['noFinalSync'] = detect_sync()
+
+    for fn in (old_loop, new_nonlinear, new_linear, negative_scaler, sync):
+        probe(fn)
+    return v, problems
+
+
+def detect_sync():
+    """(a) does a constraint callback asked about a design the model is not at run the model first?
+    (b) is the model moved to result.x when the optimizer returns a design it did not evaluate last?"""
+    c = _mini('SLSQP', None, rat(9), rows=[[1, 0]])
+    with warnings.catch_warnings():
+        warnings.simplefilter('ignore')
+        with Capture(dry='shift') as cap:
+            p = build_problem(c, c['scalings'][0])
+            cap.driver = p.driver
+            with contextlib.redirect_stdout(io.StringIO()):
+                p.run_driver()
+        xm = np.asarray(p.get_val('x')).ravel()
+        if np.allclose(xm, cap.x0 + 0.25):
+            no_final = False
+        elif np.allclose(xm, cap.x0):
+            no_final = True
+        else:
+            raise TieBrokenError('model left at %s after a dry run from %s' % (xm, cap.x0))
+        rec = cap.kw['constraints'][0]
+        x1 = cap.x0 + 1.0
+        p.driver._objfunc(cap.x0)
+        v_out_of_order = float(np.ravel(rec['fun'](x1, *rec['args']))[0])
+        p.driver._objfunc(x1)
+        v_in_order = float(np.ravel(rec['fun'](x1, *rec['args']))[0])
+        p.driver._objfunc(cap.x0)
+        v_at_x0 = float(np.ravel(rec['fun'](cap.x0, *rec['args']))[0])
+    if v_out_of_order == v_in_order != v_at_x0:
+        no_sync = False
+    elif v_out_of_order == v_at_x0 != v_in_order:
+        no_sync = True
     else:
-        raise TieBrokenError('linear constraint under trust-constr: upper slack %s at x0' % slack0)
-    # negative scaler: lower = 0 only, scaler -1; value of the dict at g = 1/2
-    c = _mini('SLSQP', rat(0), None, rows=[[1, 0]], con_scaling={'scaler': rat(-1)})
-    r = run_one(c, c['scalings'][0], dry=True)
-    val = unrat(r['records'][0]['v'][0])
-    if val == F(-1, 2):
-        v['noSwap'] = True
-    elif val == F(1, 2):
-        v['noSwap'] = False
-    else:
-        raise TieBrokenError('dict value under a negative scaler: %s' % val)
-    return v
+        raise TieBrokenError('out-of-order constraint callback: %s / %s / %s'
+                             % (v_out_of_order, v_in_order, v_at_x0))
+    return no_sync, no_final
 
 
 class TieBrokenError(Exception):
@@ -1146,8 +1250,10 @@ class TieBrokenError(Exception):
 # ------------------------------------------------------------------------------------------------
 
 def rel_close(a, b, scale=0.0, tol=TOL_REC):
+    """|a - b| small relative to the operands and to `scale`, the magnitude of the terms that were
+    added up to get them (cancellation)."""
     a, b = float(a), float(b)
-    return abs(a - b) <= tol * max(1.0, abs(a), abs(b), scale)
+    return abs(a - b) <= tol * max(abs(a), abs(b), float(scale)) + 1e-300
 
 
 class C21(Property):
@@ -1160,7 +1266,8 @@ class C21(Property):
         'C21_confunc_slope', 'C21_grad_sign', 'C21_grad_sign_new_wrong', 'C21_dv_bounds',
         'C21_model_units', 'C21_model_units_eq', 'C21_model_units_neg', 'C21_model_units_neg_fixed',
         'C21_neg_scaler_reverses', 'C21_callbacks_pure', 'C21_callbacks_stale',
-        'C21_model_left_at_last_objective', 'C21_success_feasible',
+        'C21_callbacks_pure_fixed', 'C21_model_left_at_last_objective', 'C21_model_not_at_result',
+        'C21_success_feasible',
         'C21_scaling_invariant_argmin', 'C21_affine_bijection', 'C21_kkt_unique']
     rule = ("cases: strictly convex QPs (n = 2-5, integer SPD Q) with a planted optimum as real OpenMDAO "
             "models (one component with analytic partials, 1-2 design variables, 1-2 array outputs "
@@ -1208,26 +1315,28 @@ class C21(Property):
                  'at_x_driver_units': TOL_AT, 'optimum': TOL_OPTIMUM, 'record_values_rel': TOL_REC}
     workers = 1
     _variant = None
+    _probe_problems = []
 
     # -- tie --------------------------------------------------------------------------------------
     def variant(self):
         if self._variant is None:
-            import os
             from common import in_tempdir
-            try:
-                C21._variant = in_tempdir(detect_variant)
-            except TieBrokenError as e:
-                from common import TieBroken
-                raise TieBroken(str(e))
+            C21._variant, C21._probe_problems = in_tempdir(detect_variant)
         return self._variant
 
     def translate(self):
         v = self.variant()
+        if self._probe_problems:
+            from common import TieBroken
+            raise TieBroken('variant probes on the real driver failed: ' +
+                            '; '.join(self._probe_problems))
         names = {'rebind': "old-style loop rebinds upper/lower to element 0",
                  'lastOnly': "only the last element's NonlinearConstraint is appended",
                  'linRow0': "LinearConstraint with one Jacobian row and no constant term",
                  'negNew': "_congradfunc negates upper-only rows of new-style constraints",
-                 'noSwap': "scaled bounds are not exchanged under a negative scaler"}
+                 'noSwap': "scaled bounds are not exchanged under a negative scaler",
+                 'noSync': "callbacks other than the objective do not run the model at their argument",
+                 'noFinalSync': "the model is not re-run at result.x"}
         return ["/repo variant probe: %s = %s" % (names[k], v[k]) for k in sorted(v)]
 
     def setup(self, tier):
@@ -1327,10 +1436,22 @@ class C21(Property):
                                             'jacobian_inconsistent')})
         return fails
 
+    def optimal(self, case, r):
+        """the run's design is (within tolerance) the certified optimum"""
+        if not case.get('cert'):
+            return False
+        xs = [unrat(v) for v in case['cert']['x']]
+        xm = [unrat(v) for v in r['x_model']]
+        return max(abs(float(a) - float(b)) / max(1.0, abs(float(b))) for a, b in zip(xm, xs)) \
+            <= TOL_OPTIMUM
+
     def pure(self, r):
-        """Direct purity check: every sampled callback answer equals the value re-computed with the
-        model freshly run at the design asked about."""
-        return all(s['cands'].get(str(s['arg'])) for s in r.get('samples', []))
+        """Direct purity check: every callback was asked about the design the model (resp. the
+        gradient cache) was at, and every sampled callback answer equals the value re-computed with
+        the model freshly run at the design asked about."""
+        synced = not self.variant()['noSync']     # probed: out-of-order callbacks run the model
+        return (synced or bool(r.get('disciplined', True))) and \
+            all(s['cands'].get(str(s['arg'])) for s in r.get('samples', []))
 
     def pattern(self, case, scal, worst):
         """Bound pattern (driver units) around the violated element: what the old-style loop sees."""
@@ -1338,9 +1459,16 @@ class C21(Property):
         if not isinstance(ci, int):
             return 'design_var'
         con = case['cons'][ci]
+        sc = scal['cons'][ci]
+        if case['opt'] not in OLD_STYLE:
+            size = len(Exact(case).con_elems(con))
+            if has_negative(sc):
+                return 'negative_scaler'
+            if con['linear']:
+                return 'linear_constant_term'
+            return 'not_last_element' if j < size - 1 else 'last_element'
         if con['equals'] is not None:
             return 'equality'
-        sc = scal['cons'][ci]
         els = Exact(case).con_elems(con)
         ad, sl = adder_scaler(sc, len(els))
 
@@ -1359,8 +1487,8 @@ class C21(Property):
                 f['scaling'] = si
                 f['pure'] = self.pure(r)
                 allf.append(f)
-        if not allf and case.get('cert') and case['opt'] != 'COBYLA' and \
-                all(r.get('success') for r in runs):
+        if not allf and case['opt'] != 'COBYLA' and all(r.get('success') for r in runs) and \
+                all(self.optimal(case, r) for r in runs):
             a = [float(unrat(v)) for v in runs[0]['x_model']]
             b = [float(unrat(v)) for v in runs[1]['x_model']]
             d = max(abs(p - q) / max(1.0, abs(q)) for p, q in zip(a, b))
@@ -1468,7 +1596,8 @@ class C21(Property):
                 reqs.append({'op': 'dv', 'variant': v, 'inf': rat(INF), 'tol': rat(F(TOL_CONTRACT)),
                              'lower': rats(lo), 'upper': rats(hi), 'adder': rats(ad), 'scaler': rats(sl),
                              'x': rats(probes[0][a:b])})
-            reqs.append({'op': 'trace', 'start': r.get('trace_start', 0), 'calls': r.get('trace', [])})
+            reqs.append({'op': 'trace', 'variant': v, 'start': r.get('trace_start', 0),
+                         'result': r.get('result_id', 0), 'calls': r.get('trace', [])})
         return reqs
 
     def compare(self, case, impl, answers):
@@ -1498,13 +1627,13 @@ class C21(Property):
         grad_opt = case['opt'] != 'COBYLA'
         # objective value / gradient as the optimizer sees them
         for pi, w in enumerate(views):
-            if not rel_close(unrat(r['fobj'][pi]), w['f']):
+            if not rel_close(unrat(r['fobj'][pi]), w['f'], w['fmag']):
                 return 'objective at probe %d: implementation %s, exact %s' % (
                     pi, float(unrat(r['fobj'][pi])), float(w['f']))
             if grad_opt:
                 g = [unrat(t) for t in r['gobj'][pi]]
-                sc_ = max(abs(float(t)) for t in w['gradf'])
-                if len(g) != len(w['gradf']) or not all(rel_close(a, b, sc_) for a, b in zip(g, w['gradf'])):
+                if len(g) != len(w['gradf']) or not all(
+                        rel_close(a, b, m) for a, b, m in zip(g, w['gradf'], w['gmag'])):
                     return 'objective gradient at probe %d: implementation %s, exact %s' % (
                         pi, [float(t) for t in g], [float(t) for t in w['gradf']])
         # records
@@ -1516,7 +1645,16 @@ class C21(Property):
         if len(model) != len(impl_recs):
             return '%d records handed to scipy, model builds %d' % (len(impl_recs), len(model))
         used = [False] * len(impl_recs)
+        mags = []
+        for a in cons_a:
+            m = []
+            for lo_, hi_ in zip(a['lower_s'], a['upper_s']):
+                m.append(max([abs(t) for t in (unrat(lo_), unrat(hi_)) if abs(t) < INF] + [F(0)]))
+            if a.get('equals_s'):
+                m = [max(x_, abs(unrat(e_))) for x_, e_ in zip(m, a['equals_s'])]
+            mags.append(m)
         for ci, q in model:
+            self._bound_mag = mags[ci]
             hit = None
             why = None
             for k, z in enumerate(impl_recs):
@@ -1539,7 +1677,7 @@ class C21(Property):
         for k, (m, z) in enumerate(zip(flat, r['bounds'])):
             for key, zi in (('lb', z[0]), ('ub', z[1])):
                 if (m[key] is None) != (zi is None) or (zi is not None and
-                                                        not rel_close(unrat(m[key]), unrat(zi))):
+                                                        not rel_close(unrat(m[key]), unrat(zi), 1.0)):
                     return 'bound %d %s: implementation %s, model %s' % (k, key, zi, m[key])
         # callbacks: the state machine's prediction of where each sampled answer was computed
         at = trace_a['answered_at']
@@ -1551,14 +1689,10 @@ class C21(Property):
             if not s['cands'][str(pred)]:
                 return 'callback %d (%s) asked about design %d: its answer is not the value at design ' \
                        '%d predicted by the model' % (s['k'], s['kind'], s['arg'], pred)
-        if not r.get('trace_truncated') and trace_a['final'] != r['last_obj_id']:
-            return 'final model state: model %s, last objective design %s' % (trace_a['final'],
-                                                                             r['last_obj_id'])
-        if not r.get('trace_truncated'):
-            xm = scale_x(case, sc, [unrat(v) for v in r['x_model']])
-            lo = [unrat(v) for v in r['last_obj_x']]
-            if not all(rel_close(a, b, tol=1e-9) for a, b in zip(xm, lo)):
-                return 'model is not left at the last objective design'
+        if not r.get('trace_truncated') and trace_a['final'] not in r['model_at']:
+            return 'where the model is left: model predicts design %s, the implementation is at %s ' \
+                   '(last objective design %s, result.x %s)' % (
+                       trace_a['final'], r['model_at'], r['last_obj_id'], r['result_id'])
         return None
 
     def record_diff(self, case, q, z, views, ci, grad_opt):
@@ -1567,9 +1701,9 @@ class C21(Property):
         if new != (z['t'] in ('nl', 'lin')) or (not new and q['t'] != z['t']):
             return 'kind %s vs %s' % (z['t'], q['t'])
         j = q['idx']
+        bmag = self._bound_mag
         for pi, w in enumerate(views):
             cv = w['cons'][ci]
-            scale = max([abs(float(t)) for t in cv['g']] + [1.0])
             mv = unrat(q['v'][pi])
             zv = unrat(z['v'][pi])
             if new:
@@ -1577,10 +1711,10 @@ class C21(Property):
                 for mb, zb, sgn in ((q['lb'], z['lb'], 1), (q['ub'], z['ub'], -1)):
                     ms = sgn * (mv - unrat(mb))
                     zs = sgn * (zv - unrat(zb))
-                    if not rel_close(ms, zs, scale):
+                    if not rel_close(ms, zs, max(cv['mag'][j], abs(unrat(mb)))):
                         return 'slack at probe %d: implementation %s, model %s' % (pi, float(zs),
                                                                                   float(ms))
-            elif not rel_close(mv, zv, scale):
+            elif not rel_close(mv, zv, max(cv['mag'][j], abs(bmag[j]))):
                 return 'value at probe %d: implementation %s, model %s' % (pi, float(zv), float(mv))
             if grad_opt and z.get('j') is not None:
                 row = [q['sign'] * t for t in cv['rows'][j]]
